@@ -44,7 +44,7 @@ func Elem(t *tape.Tape, maxLen int) []byte {
 		return b
 	case 8:
 		// length-boundary strings
-		n := []int{63, 64, 65, 253, 254, 255, 16383, 16384, 16385}[t.Choose(9)]
+		n := []int{63, 64, 65, 253, 254, 255, 16383, 16384, 16385, 4095, 4096, 4097, 8191, 8192, 8193, 65535, 65536, 65537}[t.Choose(18)]
 		if n > maxLen {
 			n = maxLen
 		}
@@ -78,7 +78,7 @@ func Count(t *tape.Tape) int {
 	case 6:
 		return 1
 	case 7:
-		return []int{99, 100, 101, 200, 201}[t.Choose(5)]
+		return []int{99, 100, 101, 200, 201, 199, 299, 300, 301, 255, 256, 257}[t.Choose(12)]
 	case 8:
 		return 10 + t.Choose(30)
 	default:
